@@ -7,10 +7,15 @@ from lib.replay import drv_binary
 from checks import life
 
 
-def schedules(ctx, binary, g, n, k, tag):
-    r = ctx.tlc("Seq", "MC_Seq.cfg", workers=8, timeout=900, constants={"G": g, "N": n, "K": k}, tag="exhaustive " + tag)
-    ctx.note("Seq %s: %d states, InRange PerCallerMonotone RealTimeSticky RealTimeMonotone SequentialExact CursorMonotone hold" % (tag, r["distinct"]))
-    gres = ctx.tlc("Seq", "Gen_Seq.cfg", workers=1, timeout=900, constants={"G": g, "N": n, "K": k}, tag="all interleavings " + tag)
+def schedules(ctx, binary, g, n, k, tag, simulate=0):
+    if simulate:
+        # too many interleavings to enumerate: seeded random ones (the invariants are checked on every state visited)
+        gres = ctx.tlc("Seq", "Sim_Seq.cfg", workers=1, timeout=900, constants={"G": g, "N": n, "K": k}, simulate="num=%d" % simulate, depth=200,
+                       tag="random interleavings " + tag)
+    else:
+        r = ctx.tlc("Seq", "MC_Seq.cfg", workers=8, timeout=900, constants={"G": g, "N": n, "K": k}, tag="exhaustive " + tag)
+        ctx.note("Seq %s: %d states, InRange PerCallerMonotone RealTimeSticky RealTimeMonotone SequentialExact CursorMonotone hold" % (tag, r["distinct"]))
+        gres = ctx.tlc("Seq", "Gen_Seq.cfg", workers=1, timeout=900, constants={"G": g, "N": n, "K": k}, tag="all interleavings " + tag)
     scheds = ctx.behaviours(gres)
     if not scheds:
         raise vlib.Broken("no schedules")
@@ -98,10 +103,14 @@ def run(ctx):
     # concurrent: every interleaving of the atomic steps, replayed through gates
     binary = drv_binary(ctx)
     schedules(ctx, binary, "{1, 2}", 3, 2, "2 callers x 2 calls, n=3")
+    # four and five callers (an error that needs several overlapping calls to accumulate), sequences of one and two results
+    schedules(ctx, binary, "{1, 2, 3, 4}", 1, 2, "4 callers x 2 calls, n=1", simulate=300 if q else 4000)
+    schedules(ctx, binary, "{1, 2, 3, 4, 5}", 2, 3, "5 callers x 3 calls, n=2", simulate=300 if q else 4000)
     if not q:
         schedules(ctx, binary, "{1, 2}", 2, 3, "2 callers x 3 calls, n=2")
         schedules(ctx, binary, "{1, 2, 3}", 3, 1, "3 callers x 1 call, n=3")
-        schedules(ctx, binary, "{1, 2, 3}", 2, 2, "3 callers x 2 calls, n=2")
+        schedules(ctx, binary, "{1, 2, 3}", 1, 1, "3 callers x 1 call, n=1")
+        schedules(ctx, binary, "{1, 2, 3}", 2, 2, "3 callers x 2 calls, n=2", simulate=6000)
     race = drv_binary(ctx, race=True)
     stress(ctx, binary, 4, 4, 6 if q else 8, 20 if q else 200, race_binary=race)
     # LONG sequences (Scale.tla: Returns of up to 64 results, calls in bursts of 1 / 3 / 20)
